@@ -224,7 +224,10 @@ func (p *Peer) SendCheckpoint(index types.ChainIndex, n *consensus.Network, time
 		} else if r.Block.ID() != index.ID {
 			err = fmt.Errorf("%w: wrong index", errInvalidCheckpoint)
 		} else if r.Block.V2.Commitment != r.State.Commitment(r.Block.MinerPayouts[0].Address, r.Block.Transactions, r.Block.V2Transactions()) {
-			err = fmt.Errorf("%w: wrong commitment", errInvalidCheckpoint)
+			// unusable, but not provable misbehaviour: a node that does not
+			// restrict checkpoints to its best chain serves, for a block on a
+			// side chain, a parent state derived from the header only
+			err = errors.New("checkpoint state does not match the block's commitment")
 		} else if verr := validateCheckpoint(r.State, r.Block); verr != nil {
 			// neither the block ID nor the commitment covers the whole body
 			// (e.g. the miner payout value or the v2 height), and the state
